@@ -563,6 +563,12 @@ Linear_Expression
 
 inline void
 Linear_Expression
+::linear_combine(const Linear_Expression& y, Variable v) {
+  impl->linear_combine(*y.impl, v);
+}
+
+inline void
+Linear_Expression
 ::linear_combine(const Linear_Expression& y, dimension_type i) {
   impl->linear_combine(*y.impl, i);
 }
